@@ -219,6 +219,44 @@ func fsdurWork(args []string) int {
 		w.Close()
 		marker("op-end ok")
 	}
+	// part 4: the directory is removed and re-created at the same path while the process lives (a restore that wipes
+	// the data directory, a test harness): directory fsyncs must reach the directory that now holds the files
+	{
+		wdir := filepath.Join(dir, "walrecreate")
+		next := uint64(1)
+		for round := 0; round < 2; round++ {
+			os.MkdirAll(wdir, 0o755)
+			marker("op-begin open 4096")
+			w, err := wal.Open(wdir, wal.WithSegmentSize(4096), wal.WithLogger(hclog.NewNullLogger()))
+			marker("op-end ok")
+			if err != nil {
+				fmt.Println("RESULT open-err", err)
+				return 1
+			}
+			for k := 0; k < 3; k++ {
+				logs := []*raft.Log{{Index: next, Term: 1, Data: r.Bytes(1500)}, {Index: next + 1, Term: 1, Data: r.Bytes(1500)}}
+				marker(fmt.Sprintf("op-begin store %d 2", next))
+				err := w.StoreLogs(logs)
+				w.DeleteRange(math.MaxUint64, math.MaxUint64)
+				if err != nil {
+					marker("op-end err")
+				} else {
+					marker("op-end ok")
+				}
+				next += 2
+			}
+			marker(fmt.Sprintf("op-begin del %d %d", 1, next-3))
+			w.DeleteRange(1, next-3)
+			marker("op-end ok")
+			marker("op-begin close")
+			w.Close()
+			marker("op-end ok")
+			if round == 0 {
+				os.RemoveAll(wdir) // outside any call window; the path exists again (re-created) when the trace is parsed
+			}
+			next = 1
+		}
+	}
 	return 0
 }
 
@@ -354,7 +392,11 @@ func parseTrace(path string, root string) ([]sysEv, error) {
 		case strings.HasPrefix(rest, "fsync(") || strings.HasPrefix(rest, "fdatasync("):
 			mm := reFdPath.FindStringSubmatch(rest)
 			if mm != nil && strings.HasPrefix(mm[2], root) {
-				if isDir(mm[2]) {
+				if strings.Contains(rest, "<"+mm[2]+">(deleted)") {
+					// strace -y: the descriptor refers to an object that no longer has a name (e.g. a directory that
+					// was removed and re-created at the same path): this fsync protects nothing that is reachable
+					out = append(out, sysEv{call: "fsync-deleted", path: mm[2], raw: rest})
+				} else if isDir(mm[2]) {
 					out = append(out, sysEv{call: "fsync-dir", path: mm[2], raw: rest})
 				} else {
 					out = append(out, sysEv{call: "fsync", path: mm[2], raw: rest})
